@@ -247,7 +247,7 @@ CHK(fallback_marker)
 {
     const auto &a = r.fallbackMarkers();
     const auto &b = m.fallbackMarkers();
-    bool ok = a.size() >= 1 && a.size() <= 2 && (alone || true) && a.first().forNamespace() == b.first().forNamespace() && a.last().forNamespace() == b.first().forNamespace();
+    bool ok = a.size() >= 1 && a.size() <= 2 && a.first().forNamespace() == b.first().forNamespace() && a.last().forNamespace() == b.first().forNamespace();
     vp_assert(ok, "C17 (iii) fallback marker restored (from either part)");
 }
 
@@ -265,7 +265,7 @@ SET(addresses)
 CHK(addresses)
 {
     auto a = r.extendedAddresses(), b = m.extendedAddresses();
-    vp_assert(a.size() >= 1 && a.size() <= 2 && a.first().jid() == b.first().jid() && a.first().type() == b.first().type() && (alone || true), "C17 (iii) extended addresses restored (from either part)");
+    vp_assert(a.size() >= 1 && a.size() <= 2 && a.first().jid() == b.first().jid() && a.first().type() == b.first().type(), "C17 (iii) extended addresses restored (from either part)");
 }
 
 // ================= sensitive fields =================
